@@ -327,12 +327,20 @@ def api_results_from_presentation(ctx: Context, rule_id: str = "R16g") -> None:
             exprs = list(node.args) + [k.value for k in node.keywords]
             texts = [norm(a) for a in exprs]
             captured = set()
-            for expr in exprs:
+            work = list(exprs)
+            followed: Set[str] = set()
+            while work:
+                expr = work.pop()
                 for sub in ast.walk(expr):
                     if isinstance(sub, ast.Attribute):
                         owner = prog.infer(func, sub.value)
                         if owner and owner[0] == "cls" and owner[1].qualname == API_PRES:
                             captured.add(sub.attr)
+                    elif isinstance(sub, ast.Name) and sub.id not in followed and sub.id not in func.params:
+                        # an explaining local: what it was bound to
+                        followed.add(sub.id)
+                        work.extend(n.value for n in walk_local(func.node) if isinstance(n, (ast.Assign, ast.AnnAssign)) and getattr(n, "value", None) is not None
+                                    and any(isinstance(t, ast.Name) and t.id == sub.id for t in (n.targets if isinstance(n, ast.Assign) else [n.target])))
             missing = [field for field in wanted[name] if field not in captured]
             if missing or len(texts) != len(wanted[name]):
                 rule.fail(key, where(func, node), f"{func.short} builds a {name} from {texts}: the result no longer reflects what the run reported ({wanted[name]} of the presentation), so the API disagrees with the command line (for example under the minimal return-code scheme)")
@@ -552,8 +560,26 @@ def r16h(ctx: Context) -> None:
             if main not in site.targets:
                 continue
             key = func_key(method, site.node) + " [exit code kept]"
+            def code_names(h: ast.ExceptHandler) -> Set[str]:
+                """locals of the handler that hold the exit code (or what was computed from it)"""
+                names: Set[str] = set()
+                grew = True
+                while grew:
+                    grew = False
+                    for stmt in h.body:
+                        for n in ast.walk(stmt):
+                            if isinstance(n, (ast.Assign, ast.AnnAssign)) and getattr(n, "value", None) is not None and carries_code(h, n.value, names):
+                                for t in (n.targets if isinstance(n, ast.Assign) else [n.target]):
+                                    if isinstance(t, ast.Name) and t.id not in names:
+                                        names.add(t.id)
+                                        grew = True
+                return names
+
+            def carries_code(h: ast.ExceptHandler, expr: ast.AST, names: Set[str]) -> bool:
+                return any((isinstance(sub, ast.Attribute) and sub.attr == "code" and isinstance(sub.value, ast.Name) and sub.value.id == h.name) or (isinstance(sub, ast.Name) and sub.id in names) for sub in ast.walk(expr))
+
             returned = [h for t in walk_local(method.node) if isinstance(t, ast.Try) and any(sub is site.node for stmt in t.body for sub in ast.walk(stmt)) for h in t.handlers
-                        if h.name and any(isinstance(r, ast.Return) and r.value is not None and any(isinstance(sub, ast.Attribute) and sub.attr == "code" and isinstance(sub.value, ast.Name) and sub.value.id == h.name for sub in ast.walk(r.value)) for stmt in h.body for r in ast.walk(stmt))]
+                        if h.name and any(isinstance(r, ast.Return) and r.value is not None and carries_code(h, r.value, code_names(h)) for stmt in h.body for r in ast.walk(stmt))]
             if returned:
                 # a helper that runs main() and answers with the exit code: every caller must take the answer
                 callers = [s for s in prog.callers.get(method.qualname, [])]
@@ -573,9 +599,7 @@ def r16h(ctx: Context) -> None:
                 rule.fail(key, site.where, f"{method.short} runs main() outside a handler for SystemExit: the run's exit ends the caller's process")
                 continue
             try_stmt, handler = handlers[0]
-            kept = [t.id for stmt in handler.body for n in ast.walk(stmt) if isinstance(n, (ast.Assign, ast.AnnAssign)) and getattr(n, "value", None) is not None
-                    and handler.name and any(isinstance(sub, ast.Attribute) and sub.attr == "code" and isinstance(sub.value, ast.Name) and sub.value.id == handler.name for sub in ast.walk(n.value))
-                    for t in (n.targets if isinstance(n, ast.Assign) else [n.target]) if isinstance(t, ast.Name)]
+            kept = sorted(code_names(handler)) if handler.name else []
             if not kept:
                 rule.fail(key, where(method, handler), f"{method.short} catches the exit of main() but does not keep its code: the answer is built as if the run had ended well (its sibling methods keep 'this_exception.code' and hand it on)")
                 continue
